@@ -277,3 +277,10 @@ def schema_status(d: int, ni: int, qualified: bool) -> bool:
     else:
         exists = folded in eng.dbs
     return done(exists == tmpl.lower().startswith("create") and conn.database == "DB1" and conn.schema == "S1")
+
+
+# ------------------------------------------------------------------ DML with bound values: the values, hence the affected rows, are exactly the bound ones (shared with C01)
+import obligations.C01  # noqa: E402,F401
+from vf.registry import alias  # noqa: E402
+
+alias("C04.dml_bound_values_are_not_rewritten", "C01.bound_values_reach_the_engine_unchanged", "an INSERT with bound values (incl. text that looks like a session-variable reference while such variables are set) changes exactly the rows it names")
